@@ -28,7 +28,19 @@ func (pass *PrefixObjectNames) Process(schemas []*ast.Schema) ([]*ast.Schema, er
 		OnConstantRef: pass.processConstantRef,
 	}
 
-	return visitor.VisitSchemas(schemas)
+	newSchemas, err := visitor.VisitSchemas(schemas)
+	if err != nil {
+		return nil, err
+	}
+
+	// the entry point names an object: it gets the prefix too
+	for _, schema := range newSchemas {
+		if schema.EntryPoint != "" {
+			schema.EntryPoint = pass.Prefix + schema.EntryPoint
+		}
+	}
+
+	return newSchemas, nil
 }
 
 func (pass *PrefixObjectNames) processObject(visitor *Visitor, schema *ast.Schema, object ast.Object) (ast.Object, error) {
